@@ -132,8 +132,33 @@ func historyCase(r *rand.Rand, hot int) Case {
 		tags = append(tags, "fns:local")
 	}
 	call.alt = chance(r, 0.5)
+	if slowOn && chance(r, 0.004) {
+		// a validation that is under way for a long time (its first rule is a slow per-call function) while the other
+		// goroutines push hundreds of further types through the cache: the rest of its fields must still be judged
+		t = g.structType(2)
+		pv = reflect.New(t)
+		rm := valid.RM{}
+		first := true
+		for i := 0; i < t.NumField(); i++ {
+			f := t.Field(i)
+			if f.PkgPath != "" {
+				continue
+			}
+			if first {
+				rm[f.Name], first = "lslow", false
+			} else {
+				rm[f.Name] = "required"
+			}
+		}
+		if len(rm) >= 2 {
+			call = structCall{src: pv.Interface(), outer: rm, local: map[string]string{"lslow": slowMarker}}
+			tags = []string{"top:slow-call"}
+		}
+	}
 	return call.toCase(tags, "")
 }
+
+var slowOn bool
 
 // guard2: guard for a pair of results obtained together
 func guard2(f func() (string, string)) (a, b string) {
@@ -387,7 +412,7 @@ func init() {
 		Name: "conc", Rule: "32 goroutines, each issuing its own stream of Struct (tags, overrides, per-call functions, shared hot types and the whole pool), Var, Map and Url calls at the same time; " +
 			"every result is compared with the model's result for that call alone; built with -race in the C11 check. non-trivial: the call returned an error; distinct by request",
 		Size: map[string]int{"quick": 40000, "thorough": 600000}, Workers: 32,
-		Setup: func(string) { retainOn = true },
+		Setup: func(string) { retainOn, slowOn = true, true },
 		Gen: func(r *rand.Rand, tier string) Case {
 			if chance(r, 0.05) {
 				retainCase(r)
